@@ -67,6 +67,10 @@ struct Fnv {
 
 struct InterpUnit;
 InterpUnit* g_unit = nullptr;
+} // namespace
+extern void (*TeakraVerifMmioHook)(std::uint16_t address, bool is_write, std::uint16_t value);
+namespace {
+bool g_mmio_touched = false;
 
 struct InterpUnit {
     std::unique_ptr<Teakra::Teakra> t;
@@ -96,6 +100,8 @@ struct InterpUnit {
         cb.write32 = [](u32, u32) {};
         t->SetAHBMCallback(cb);
         TeakraVerifMemHook = &Hook;
+        TeakraVerifMmioHook = [](u16, bool, u16) { g_mmio_touched = true; };
+        g_mmio_touched = false;
     }
     static u16 Bg(u64 seed, u32 wa) { return (u16)SplitMix(seed * 0x100000 + wa); }
 
@@ -199,7 +205,8 @@ struct InterpUnit {
         if (op == "new") { RestoreMem(); Fresh(); return "ok"; }
         if (op == "gen" && a.size() == 2) {   // resync: registers from seed, memory background from seed
             RestoreMem();
-            t->Reset();   // peripherals/MIU back to power-on (a previous case may have stored into MMIO)
+            if (g_mmio_touched) Fresh();   // a previous case reached a peripheral: start from a new Teakra
+            else t->Reset();
             bg_seed = H(a[1]);
             bg_on = true;
             Gen(bg_seed);
